@@ -395,12 +395,15 @@ func (s *Store) instantiate(
 	// After engine creation, we can create the funcref element instances and initialize funcref type globals.
 	m.buildElementInstances(module.ElementSection)
 
+	// Active element segments are applied before active data segments, so that the writes into (possibly imported)
+	// tables persist when a later data segment is out of bounds.
+	// https://www.w3.org/TR/2022/WD-wasm-core-2-20220419/exec/modules.html#instantiation
+	m.applyElements(module.ElementSection)
+
 	// Now all the validation passes, we are safe to mutate memory instances (possibly imported ones).
 	if err = m.applyData(module.DataSection); err != nil {
 		return nil, err
 	}
-
-	m.applyElements(module.ElementSection)
 
 	m.Engine.DoneInstantiation()
 
